@@ -126,6 +126,7 @@ struct Model {
 	std::set<std::string> all_groups;
 	uint64_t group_ctr = 0, serial_ctr = 0;
 	bool allow_either_add = false, allow_either_route = false; // capacity-limited variants
+	bool route_may_fail = false;                               // descriptor-exhaustion faults are being injected
 	int max_matchers = 12;
 	bool add_local_only = false;
 	double default_timeout_s = 5.0;
